@@ -22,6 +22,9 @@ ASSUMPTIONS = [
     "arguments are drawn at quantile levels in [1e-4, 1-1e-4] so reference cdf values are not denormal",
 ]
 BUDGET = {"quick": (4, 700), "thorough": (16, 6000)}
+# coverage-guided campaigns (atheris + fuzz_one_input over the same strategy): (corpus mode, seed offset)
+FUZZ = {"quick": {"runs": 2000, "campaigns": [("empty", 0), ("seeded", 1)]},
+        "thorough": {"runs": 60000, "campaigns": [("empty", 0), ("empty", 1)] + [("seeded", 2 + i) for i in range(6)]}}
 
 mp.mp.dps = 30
 
@@ -440,7 +443,7 @@ def _selftest_reference():
 
 SELFTESTS = [_selftest_reference]
 
-TECHNIQUE = "property-based testing (Hypothesis @given) against closed-form mpmath reference distributions"
+TECHNIQUE = "property-based testing (Hypothesis @given) against closed-form mpmath reference distributions; plus coverage-guided fuzzing (atheris/libFuzzer through fuzz_one_input) with the same oracle"
 LEVEL_TEXT = ("Exploration: thousands of generated (family, function, parameters, argument, log flag, seed) "
               "cases compared with independently written closed-form densities and distribution functions; "
               "right level because the functions are pure and cheap, so dense sampling of every branch "
